@@ -1394,3 +1394,80 @@ Proof.
   destruct (login_completes cf asked ph rest cs sched its x He Hm Hph Hocc Hd Hnk H) as (Hr & _ & _ & Hl).
   destruct (Hl Hlen) as [Hx Ha]. split; [exact Hx|]. rewrite (writes_of_answers cf its Hr), Ha. reflexivity.
 Qed.
+
+(* ---- histories of logins on one object ---- *)
+(* counters local to the login function: every login of a history is a run from the initial state,
+   whatever the earlier logins did *)
+Theorem history_independent : forall cf logins carried,
+  hist_run CsLocal cf carried logins = map (run cf) logins.
+Proof.
+  intros cf. induction logins as [|evs rest IH]; intro carried; [reflexivity|].
+  cbn [hist_run map start_of]. rewrite IH. unfold run.
+  destruct (exec cf init evs) as [its r]. reflexivity.
+Qed.
+
+Theorem history_cl_independent : forall cf ss carried,
+  hist_cl CsLocal cf carried ss = map (fun s => cl_run cf (fst s) (snd s)) ss.
+Proof.
+  intros cf. induction ss as [|s rest IH]; intro carried; [reflexivity|].
+  cbn [hist_cl map start_of]. rewrite IH. reflexivity.
+Qed.
+
+Theorem history_completes_local : history_completes_for CsLocal.
+Proof.
+  intros cf ss He Hall. rewrite history_cl_independent.
+  induction Hall as [|s rest Hs _ IH]; [constructor|].
+  cbn [map]. constructor; [|exact IH].
+  destruct Hs as (Hm & Hph & Hocc & Hd & Hnk & Hlen).
+  unfold se_io. cbn [fst snd].
+  destruct (cl_run cf (se_phs s) (se_sched s)) as [its x] eqn:Hrun.
+  destruct (login_completes cf (se_asked s) (se_ph s) (se_rest s) (se_cs s) (se_sched s) its x
+              He Hm Hph Hocc Hd Hnk Hrun) as (Hr & _ & _ & Hl).
+  destruct (Hl Hlen) as [Hx Ha].
+  unfold login_done. cbn [fst snd]. split; [exact Hx|]. split; [exact Ha|exact Hr].
+Qed.
+
+(* ... and the scope is what makes it true: with counters that live on the object the third login
+   of a history of three accepted logins raises on the first prompt it sees *)
+Definition ex_session : session := mkSession [ex_p1; ex_p2] ex_p3 [] [CUser; CPass] (bytewise 60).
+
+Example ex_session_ok : session_ok (ex_cfg Telnet) ex_session.
+Proof.
+  unfold session_ok, ex_session. cbn [se_asked se_ph se_rest se_cs se_sched se_phs app].
+  split; [reflexivity|]. split; [reflexivity|]. split; [intros [| |]; cbn; lia|].
+  split; [exact ex_dlg_ok|]. split; [apply no_kick_bytewise|].
+  rewrite count_pos_bytewise. vm_compute. lia.
+Qed.
+
+Example ex_history_local :
+  map (fun r => (clres_code (snd r), answers (fst r)))
+      (hist_cl CsLocal (ex_cfg Telnet) zero (map se_io [ex_session; ex_session; ex_session])) =
+  [(0, [CUser; CPass]); (0, [CUser; CPass]); (0, [CUser; CPass])].
+Proof. vm_compute. reflexivity. Qed.
+
+Example ex_history_object :
+  map (fun r => (clres_code (snd r), answers (fst r)))
+      (hist_cl CsObject (ex_cfg Telnet) zero (map se_io [ex_session; ex_session; ex_session])) =
+  [(0, [CUser; CPass]); (0, [CUser; CPass]); (1, [])].
+Proof. vm_compute. reflexivity. Qed.
+
+Lemma Forall2_nth_error : forall A B (P : A -> B -> Prop) l1 l2, Forall2 P l1 l2 ->
+  forall k a b, nth_error l1 k = Some a -> nth_error l2 k = Some b -> P a b.
+Proof.
+  intros A B P l1 l2 H. induction H as [|x y l1 l2 Hxy _ IH]; intros k a b Ha Hb.
+  - destruct k; discriminate.
+  - destruct k as [|k]; cbn in Ha, Hb.
+    + inversion Ha; inversion Hb; subst. exact Hxy.
+    + exact (IH k a b Ha Hb).
+Qed.
+
+Theorem history_completes_object_refuted : ~ history_completes_for CsObject.
+Proof.
+  intro H.
+  specialize (H (ex_cfg Telnet) [ex_session; ex_session; ex_session] ex_empties
+                (Forall_cons _ ex_session_ok (Forall_cons _ ex_session_ok (Forall_cons _ ex_session_ok (Forall_nil _))))).
+  destruct (nth_error (hist_cl CsObject (ex_cfg Telnet) zero (map se_io [ex_session; ex_session; ex_session])) 2)
+    as [r|] eqn:E; [|vm_compute in E; discriminate].
+  destruct (Forall2_nth_error _ _ _ _ _ H 2%nat ex_session r eq_refl E) as [Hd _].
+  vm_compute in E. inversion E; subst. cbn in Hd. discriminate.
+Qed.
